@@ -87,6 +87,63 @@ class SetVal:
         self.ktype = ktype
 
 
+class LocalDict(LibObj):
+    """An empty dict display `{}`: a Python dict while its keys are concrete; becomes a heap dict on the first symbolic key."""
+
+    def __init__(self):
+        super().__init__("local_dict")
+        self.py = {}
+        self.heap = None
+
+    def obj(self, I):
+        if self.heap is None:
+            raise Unsupported("local dict with concrete keys used as a heap dict")
+        return self.heap
+
+    def setitem(self, I, k, v):
+        if self.heap is None and not isinstance(k, (Sym, Obj)):
+            self.py[k] = v
+            return
+        if self.heap is None:
+            if self.py:
+                raise Unsupported("local dict mixing concrete and symbolic keys")
+            kt = TInt if is_sym(k, "int") else TStr if is_sym(k, "str") else None
+            if kt is None:
+                raise Unsupported("local dict key kind")
+            vt = TObj(tname(v.typ)) if isinstance(v, Obj) and v.typ.kind == "obj" else TJson
+            self.heap = I.alloc(TDict(kt, vt))
+        I.d_setitem(self.heap, k, v)
+
+    def getitem(self, I, k, node):
+        if self.heap is not None:
+            return I.d_getitem(self.heap, k, None, node)
+        if k not in self.py:
+            raise RaiseSig(I.make_exc("KeyError", site=node))
+        return self.py[k]
+
+    def contains(self, I, x):
+        if self.heap is not None:
+            return I.d_contains(self.heap, x)
+        return x in self.py
+
+    def truthy(self, I):
+        if self.heap is not None:
+            return I.d_nonempty(self.heap)
+        return bool(self.py)
+
+    def iterate(self, I):
+        if self.heap is not None:
+            raise Unsupported("iteration over a symbolic local dict")
+        return list(self.py)
+
+    def attr(self, I, name, fr, node):
+        if self.heap is not None:
+            return I.lib.obj_attr(I, self.heap, name, fr, node)
+        if name in ("get", "pop", "items", "values", "keys"):
+            return Builtin(f"dict.{name}", lambda I_, a, k: I_.lib.pydict_method(I_, self.py, name, a, k, node))
+        return MISSING
+
+
 class Lib:
     def __init__(self, world):
         self.w = world
@@ -265,7 +322,12 @@ class Lib:
             return cont.contains(I, x)
         if is_sym(cont, "str") or isinstance(cont, str):
             if isinstance(x, str) or is_sym(x, "str"):
-                return z3.Contains(self.sstr(I, cont), self.sstr(I, x))
+                if isinstance(cont, str) and isinstance(x, str):
+                    return x in cont
+                return I.c.fresh("substring", BoolS)  # substring test on a symbolic string: either answer
+            I.raise_("TypeError")
+        if cont is None or isinstance(cont, (int, bool)) or is_sym(cont, "int") or is_sym(cont, "bool") or is_sym(cont, "float"):
+            I.raise_("TypeError")  # argument of type ... is not iterable
         raise Unsupported(f"'in' on {cont!r}")
 
     def truthy_sym(self, I, v):
@@ -278,7 +340,7 @@ class Lib:
         return set(items)
 
     def make_dict(self, I, d):
-        return d
+        return d if d else LocalDict()
 
     def iterate(self, I, v):
         if isinstance(v, (list, tuple)):
@@ -360,6 +422,8 @@ class Lib:
                 return Builtin("log", lambda I, a, k: None)
             raise Unsupported(f"attribute {name} of {v!r}")
         if isinstance(v, str) or is_sym(v, "str"):
+            if not hasattr(str, name):
+                raise RaiseSig(I.make_exc("AttributeError", site=node))
             return Builtin(f"str.{name}", lambda I_, a, k: self.str_method(I_, v, name, a, k, node))
         if isinstance(v, dict):
             return Builtin(f"dict.{name}", lambda I_, a, k: self.pydict_method(I_, v, name, a, k, node))
@@ -372,6 +436,9 @@ class Lib:
             r = self.sym_attr(I, v, name, fr, node)
             if r is not MISSING:
                 return r
+        if isinstance(v, (int, bool)) or is_sym(v, "int") or is_sym(v, "bool"):
+            if not hasattr(int, name):
+                raise RaiseSig(I.make_exc("AttributeError", site=node))
         raise Unsupported(f"attribute {name} of {v!r}")
 
     def pydict_method(self, I, d, name, a, k, node):
@@ -397,6 +464,8 @@ class Lib:
                 return getattr(s, name)(*a)
             if name == "encode":
                 return self.bytes_val(I, s.encode())
+        if not hasattr(str, name):
+            raise RaiseSig(I.make_exc("AttributeError", site=node))
         r = self.model_str_method(I, s, name, a, k, node)
         if r is MISSING:
             raise Unsupported(f"str.{name} on symbolic string")
